@@ -1,12 +1,13 @@
 //go:build verif
 
-package sha3
+package sha3_test
 
 import (
 	"bytes"
 	"fmt"
 	"testing"
 
+	"github.com/cloudflare/circl/internal/sha3"
 	"github.com/cloudflare/circl/internal/verifmc"
 	"github.com/cloudflare/circl/internal/verifref/c15hist"
 	"github.com/cloudflare/circl/internal/verifref/keccak"
@@ -26,8 +27,8 @@ func c15Lengths() []int {
 	return l
 }
 
-// TestVerifC15_lengths: the one-shot entry points (Sum224..Sum512, ShakeSum128/256,
-// TurboShakeSum128/256) on every length of the alphabet and every output length of the
+// TestVerifC15_lengths: the one-shot entry points (sha3.Sum224..Sum512, sha3.ShakeSum128/256,
+// sha3.TurboShakeSum128/256) on every length of the alphabet and every output length of the
 // alphabet, against ref/keccak.
 func TestVerifC15_lengths(t *testing.T) {
 	c15SkipNonDefault(t)
@@ -51,18 +52,18 @@ func TestVerifC15_lengths(t *testing.T) {
 	}
 	xofOuts := func(rt int) []int { return []int{0, 1, 32, rt - 1, rt, rt + 1, 2*rt + 3} }
 	fns := []fn{
-		{"Sum224", 144, 6, 24, []int{28}, func(o, m []byte) { d := Sum224(m); copy(o, d[:]) }},
-		{"Sum256", 136, 6, 24, []int{32}, func(o, m []byte) { d := Sum256(m); copy(o, d[:]) }},
-		{"Sum384", 104, 6, 24, []int{48}, func(o, m []byte) { d := Sum384(m); copy(o, d[:]) }},
-		{"Sum512", 72, 6, 24, []int{64}, func(o, m []byte) { d := Sum512(m); copy(o, d[:]) }},
-		{"ShakeSum128", 168, 0x1f, 24, xofOuts(168), func(o, m []byte) { ShakeSum128(o, m) }},
-		{"ShakeSum256", 136, 0x1f, 24, xofOuts(136), func(o, m []byte) { ShakeSum256(o, m) }},
+		{"Sum224", 144, 6, 24, []int{28}, func(o, m []byte) { d := sha3.Sum224(m); copy(o, d[:]) }},
+		{"Sum256", 136, 6, 24, []int{32}, func(o, m []byte) { d := sha3.Sum256(m); copy(o, d[:]) }},
+		{"Sum384", 104, 6, 24, []int{48}, func(o, m []byte) { d := sha3.Sum384(m); copy(o, d[:]) }},
+		{"Sum512", 72, 6, 24, []int{64}, func(o, m []byte) { d := sha3.Sum512(m); copy(o, d[:]) }},
+		{"ShakeSum128", 168, 0x1f, 24, xofOuts(168), func(o, m []byte) { sha3.ShakeSum128(o, m) }},
+		{"ShakeSum256", 136, 0x1f, 24, xofOuts(136), func(o, m []byte) { sha3.ShakeSum256(o, m) }},
 	}
 	for _, D := range []byte{0x01, 0x06, 0x07, 0x0b, 0x1f, 0x7f} {
 		D := D
 		fns = append(fns,
-			fn{fmt.Sprintf("TurboShakeSum128[D=%02x]", D), 168, D, 12, xofOuts(168), func(o, m []byte) { TurboShakeSum128(o, m, D) }},
-			fn{fmt.Sprintf("TurboShakeSum256[D=%02x]", D), 136, D, 12, xofOuts(136), func(o, m []byte) { TurboShakeSum256(o, m, D) }})
+			fn{fmt.Sprintf("TurboShakeSum128[D=%02x]", D), 168, D, 12, xofOuts(168), func(o, m []byte) { sha3.TurboShakeSum128(o, m, D) }},
+			fn{fmt.Sprintf("TurboShakeSum256[D=%02x]", D), 136, D, 12, xofOuts(136), func(o, m []byte) { sha3.TurboShakeSum256(o, m, D) }})
 	}
 	r.Set("functions", len(fns))
 	r.Set("message_lengths", len(lens))
